@@ -6,14 +6,14 @@
 # repository, each patch is applied there, the check is run, the patch is reverted.
 # usage: tools/run_seeded.sh [quick|thorough] [id-glob]
 TIER="${1:-quick}"; GLOB="${2:-*}"
-S=/tmp/seedrun
+S="${SEEDRUN_DIR:-/tmp/seedrun}"   # scratch directory (override to run shards in parallel)
 rm -rf "$S"; git -C /repo worktree prune; git -C /verif worktree prune
 mkdir -p "$S"
 git -C /repo worktree add --detach "$S/repo" HEAD >/dev/null 2>&1 || { echo "cannot create repo worktree"; exit 9; }
 git -C /verif worktree add --detach "$S/verif" HEAD >/dev/null 2>&1 || { echo "cannot create verif worktree"; exit 9; }
 sed -i "s|\"/repo/|\"$S/repo/|g" "$S/verif/streamsim/Cargo.toml"
 cp /repo/Cargo.lock "$S/verif/streamsim/Cargo.lock" 2>/dev/null
-OUT=/verif/seeded/RESULTS.md
+OUT="${SEEDRUN_OUT:-/verif/seeded/RESULTS.md}"
 TMP="$S/results.md"
 echo "# seeded changes vs. ./check $TIER ($(date -u +%Y-%m-%dT%H:%MZ), /repo $(git -C /repo rev-parse --short HEAD), /verif $(git -C /verif rev-parse --short HEAD))" > $TMP
 echo "" >> $TMP
